@@ -2,6 +2,8 @@
 From Coq Require Import List Arith Bool QArith ZArith.
 From Pcfg Require Import Honey SmallGenProofsWalk.
 From PcfgGen Require Import Consts_gen Small_walk_gen.
+From Pcfg Require Import SessionRt SessionHoneyGenProofs.
+From PcfgGen Require Import SessionHoney_gen.
 Import ListNotations.
 
 (* side condition on the source: when rounding leaves the running sum below the
@@ -110,9 +112,76 @@ Proof.
   - vm_compute. reflexivity.
 Qed.
 
+
+(* ---- translator tie of the honeyword loop: gen/SessionHoney_gen.v is the translation of the
+   Python text of lib_guesser/honeyword_session.py HoneywordSession.run
+   (harness/translate_session.py, redone on every run).  The world: self.random_seed
+   ([cur_seed]), what random.seed was last called with ([rng]); [words s] = what
+   create_guesses(.., is_honeyword=True, ..) writes for the structure random_walk() returns
+   right after random.seed(s); the contract [honey_world] says what each operation does to
+   these observations (create_guesses: the first `limit` words, all for None / 0, and their
+   number).  Then for every limit n >= 1, as soon as the first k iterations hold n words,
+   the translated loop writes exactly what the model [honey_loop] writes for the iterations
+   words(s0), words(s0+1), ...: the seed is advanced by one per iteration, the limit is
+   decremented by the RETURNED count and the loop stops at <= 0 as in the source *)
+Theorem C16_source_honeyword_run_is_model :
+  forall (W Item Pt : Type) (item_pt : Item -> Pt)
+         (create_guesses : Pt -> bool -> option Z -> W -> sres Z * list nat * W)
+         (random_walk : W -> Item * W) (get_random_seed : W -> Z) (set_random_seed seed_random : Z -> W -> W)
+         (cur_seed : W -> Z) (rng : W -> option Z) (expansion : Pt -> list nat) (words : Z -> list nat),
+  honey_world item_pt create_guesses random_walk get_random_seed set_random_seed seed_random cur_seed rng expansion words ->
+  (forall s, length (words s) <= 1) ->
+  forall (n k fuel : nat) (w : W),
+  n >= 1 -> length (concat (iterations words (cur_seed w) k)) >= n -> k < fuel ->
+  exists w', py_honeyword_run item_pt create_guesses random_walk get_random_seed set_random_seed seed_random
+                              fuel (Some (Z.of_nat n)) w =
+             (SOk tt, honey_loop (iterations words (cur_seed w) k) n, w').
+Proof. exact (@honey_eq). Qed.
+
+(* C16_exactly_N transported to the source *)
+Theorem C16_source_exactly_N :
+  forall (W Item Pt : Type) (item_pt : Item -> Pt)
+         (create_guesses : Pt -> bool -> option Z -> W -> sres Z * list nat * W)
+         (random_walk : W -> Item * W) (get_random_seed : W -> Z) (set_random_seed seed_random : Z -> W -> W)
+         (cur_seed : W -> Z) (rng : W -> option Z) (expansion : Pt -> list nat) (words : Z -> list nat),
+  honey_world item_pt create_guesses random_walk get_random_seed set_random_seed seed_random cur_seed rng expansion words ->
+  (forall s, length (words s) <= 1) ->
+  forall (n k fuel : nat) (w : W),
+  n >= 1 -> length (concat (iterations words (cur_seed w) k)) >= n -> k < fuel ->
+  let out := snd (fst (py_honeyword_run item_pt create_guesses random_walk get_random_seed set_random_seed seed_random
+                                        fuel (Some (Z.of_nat n)) w)) in
+  out = firstn n (concat (iterations words (cur_seed w) k)) /\ length out = n.
+Proof. exact (@source_exactly_N). Qed.
+
+(* limit None / 0 (`if limit:` false): the loop has no exit of its own; after any number of
+   iterations it has written all their words (honey_loop iters 0) and goes on *)
+Theorem C16_source_unlimited_never_stops :
+  forall (W Item Pt : Type) (item_pt : Item -> Pt)
+         (create_guesses : Pt -> bool -> option Z -> W -> sres Z * list nat * W)
+         (random_walk : W -> Item * W) (get_random_seed : W -> Z) (set_random_seed seed_random : Z -> W -> W)
+         (cur_seed : W -> Z) (rng : W -> option Z) (expansion : Pt -> list nat) (words : Z -> list nat),
+  honey_world item_pt create_guesses random_walk get_random_seed set_random_seed seed_random cur_seed rng expansion words ->
+  (forall s, length (words s) <= 1) ->
+  forall (l : option Z) (k : nat) (w : W), l = None \/ l = Some 0%Z ->
+  exists w', py_honeyword_run item_pt create_guesses random_walk get_random_seed set_random_seed seed_random k l w =
+             (SExc OutOfFuel, honey_loop (iterations words (cur_seed w) k) 0, w').
+Proof. exact (@honey_unlimited). Qed.
+
+(* the hypotheses are satisfiable and the translated loop computes: seeds 1, 2, ... where
+   every third seed yields no word (a Markov structure) *)
+Example C16_source_honeyword_run_example :
+  let words := fun z : Z => if Z.eqb (z mod 3) 0 then @nil nat else [Z.to_nat z] in
+  honey_world (fun it : sw_item => it) sw_create (sw_walk words) sw_get sw_set sw_seed (fun w => fst w) (fun w => snd w)
+              (fun pt => pt) words /\
+  py_honeyword_run (fun it : sw_item => it) sw_create (sw_walk words) sw_get sw_set sw_seed 10 (Some 4%Z) (1%Z, None)
+  = (SOk tt, [1; 2; 4; 5], (5%Z, Some 5%Z)).
+Proof. exact (conj (seed_world_ok _) (proj1 seed_world_example)). Qed.
+
 Print Assumptions C16_select_first.
 Print Assumptions C16_source_random_walk_is_model.
 Print Assumptions C16_source_walk_base_interval_Q.
 Print Assumptions C16_source_walk_group_interval_Q.
 Print Assumptions C16_select_interval_Q.
 Print Assumptions C16_exactly_N.
+Print Assumptions C16_source_honeyword_run_is_model.
+Print Assumptions C16_source_exactly_N.
